@@ -166,6 +166,34 @@ def build_unit(pid, unit, sdir):
     return binp, pkgdir
 
 
+def passthrough(pid, spec, sdir):
+    """Standing check of the instrumenter (thorough tier): the repository's OWN tests of the
+    instrumented packages, rewritten the same way, must pass on the instrumented copy with the
+    shims in pass-through mode (no scheduler active => every shim is the std primitive)."""
+    out = []
+    for i, pt in enumerate(spec.get("passthrough", [])):
+        root = os.path.join(sdir, "pt%d" % i)
+        rc, o = run(["rsync", "-a", "--exclude", ".git", REPO.rstrip("/") + "/", root + "/"])
+        if rc != 0:
+            raise HarnessError("rsync failed: " + o)
+        mod = os.path.normpath(os.path.join(root, pt["module"]))
+        mod_edit(mod)
+        env = goenv({"INSTR_TESTS": "1"})
+        if pt.get("skip_files"):
+            env["VPREP_SKIP"] = ",".join(pt["skip_files"])
+        rc, o = run([ensure_tools(), mod] + pt["patterns"], env=env)
+        if rc != 0:
+            raise HarnessError("instrumenter (with tests) failed on %s %s:\n%s" % (pt["module"], pt["patterns"], o[-3000:]))
+        rc, o = run(["go", "test", "-count=1", "-timeout", "20m", "-json"] + pt["patterns"], cwd=mod, timeout=1500)
+        passed = len(re.findall(r'"Action":"pass","Package":"[^"]+","Test":"', o))
+        failed = re.findall(r'"Action":"fail","Package":"[^"]+","Test":"([^"]+)"', o)
+        shutil.rmtree(root, ignore_errors=True)
+        if rc != 0 or failed:
+            raise HarnessError("the repository's own tests FAIL on the instrumented copy of %s %s (instrumenter changed semantics?): %s\n%s" % (pt["module"], pt["patterns"], failed[:10], o[-2000:]))
+        out.append({"module": pt["module"], "packages": pt["patterns"], "repository_tests_passed_on_instrumented_copy": passed})
+    return out
+
+
 def list_jobs(unit, binp, pkgdir, tier):
     env = goenv({"VERIF_LIST": "1", "VERIF_TIER": tier})
     rc, out = run([binp, "-test.run", "^%s$" % unit["test"]], cwd=pkgdir, env=env, timeout=120)
@@ -328,6 +356,8 @@ def check(pid, tier):
             for res in ex.map(build_group, list(groups.values())):
                 for name, b in res:
                     built[name] = b
+        pt = passthrough(pid, spec, sdir) if (tier == "thorough" or os.environ.get("VERIF_PASSTHROUGH") == "1") else []
+        spec["_passthrough_result"] = pt
         t_build = time.time() - t0
         budget = float(os.environ.get("VERIF_BUDGET_S", spec.get("budget_s", {}).get(tier, 150 if tier == "quick" else 1500)))
         tasks = []
@@ -450,6 +480,7 @@ def aggregate(pid, tier, spec, results, sdir, t0, t_build):
             "caps_hit": caps, "bounds": bounds, "counters": counters,
             "samples": samples, "jobs": jobs_tbl, "notes": notes[:40],
             "known_findings_reported": [v["key"] for v in old],
+            "instrumenter_passthrough": spec.get("_passthrough_result", []),
             "build_s": round(t_build, 1),
         },
         "assumptions": spec.get("assumptions", []),
